@@ -6,6 +6,15 @@ HOOK_COMMITS = ["db46fe7"]
 
 # id -> technique (the deciding method, in a few words)
 TECH = {
+ "C06": "differential proptest: generated programs with `return` injected at every grammar position vs reference interpreter; pinned source-level regressions",
+ "C07": "differential proptest: generated programs with `abort` injected at every grammar position vs reference interpreter; pinned source-level regressions",
+ "C08": "differential proptest: `??` / `ok, err =` dense programs vs reference interpreter, plus membership of the stored default in the compiler's reported type",
+ "C09": "differential proptest: short-circuit/conditional programs with effectful operands and an evaluation trace vs reference interpreter",
+ "C13": "differential proptest: closure calls with shadowing parameters and failing/returning bodies vs reference interpreter with save/restore semantics; final runtime state inspected",
+ "C20": "proptest + exhaustive enumeration of short path texts: render/parse round-trips and agreement between the VRL compiler's path and parse_target_path",
+ "C30": "grammar-based proptest + token mutation: parse(to_lucene(parse(q))) == parse(q) and serde round-trip",
+ "C31": "metamorphic proptest (boolean composition identities, range = conjunction of bounds, irrelevance of unaddressed fields) plus a reference evaluator for attribute and tag leaves",
+ "C33": "mutation-based proptest over the repository's VRL corpus and function examples: every diagnostic label within the source on char boundaries, rendering plain and coloured succeeds",
  "C10": "proptest + exhaustive edge grid against an independent ordering model; differential across literal / typed-field / value-API evaluation",
  "C11": "proptest against an independent arithmetic model (i128 mod 2^64, IEEE on converted operands), three delivery forms + value API",
  "C18": "proptest differential vs reference model + algebraic laws (get/insert/remove), stateful op histories, shrinking",
